@@ -210,7 +210,11 @@ class _Sym:
         except z3.Z3Exception:  # e.g. the pattern contains an `ite`: fall back to inferred triggers
             return z3.ForAll([i], z3.Implies(z3.And(lo <= i, i < hi), body))
 
-    def forall_key(self, ty: Ty, fn: Callable, pattern=None):
+    def slice_none(self):
+        from .types import TSlice
+        return unwrap(Val(TSlice, TSlice.lit("slice(None)")))
+
+    def forall_key(self, ty: Ty, fn: Callable, pattern=None, domain=()):
         k = z3.Const(fresh_name("qk"), ty.sort())
         body = fn(unwrap(Val(ty, k)))
         if isinstance(body, (list, tuple)):
@@ -247,6 +251,8 @@ class _Sym:
 
     def some(self, x):
         x = wrap(x)
+        if not isinstance(x.ty, TOpt):  # already narrowed to the payload type by a flow refinement
+            return unwrap(x)
         return unwrap(Val(x.ty.elem, x.ty.val(x.t)))
 
     def is_tag(self, x, tag):
@@ -313,6 +319,9 @@ class _Conc:
 
     def defarray(self, name, args, pred, n=None):
         return [bool(pred(i)) for i in range(n)], True
+
+    def slice_none(self):
+        return slice(None)
 
     def forall_key(self, ty, fn, pattern=None, domain=()):
         return all(bool(fn(k)) for k in domain)
